@@ -156,7 +156,7 @@ func propC06(w *World, r *Report) {
 	}
 	checkThrottleStartFailureSurfaces(w, r, runs, "X3")
 	checkThrottlePassThrough(w, r, runs, "X4")
-	checkSettingsImmutable(w, r, "X2", "RecorderConfig", "ThermalRecorder", "Config") // min-secs as configured
+	checkSettingsImmutable(w, r, "X2", "RecorderConfig:MinSecs", "ThermalRecorder:MinSecs", "Config:Recorder") // min-secs as configured
 }
 
 // checkThrottleStartFailureSurfaces: whenever the wrapped recorder refuses to start a file inside a throttler call, that
@@ -405,7 +405,7 @@ func propC05(w *World, r *Report) {
 	}
 	r.Check(nClock >= 1, "G4", "production constructor passes a clock", "-", fmt.Sprint(nClock))
 	checkThrottleWiring(w, r)
-	checkSettingsImmutable(w, r, "T2", "ThermalThrottler", "RecorderConfig", "ThermalRecorder", "Config") // bucket-size, min-refill and min-secs as configured
+	checkSettingsImmutable(w, r, "T2", "ThermalThrottler", "RecorderConfig:MinSecs", "ThermalRecorder:MinSecs", "Config:Throttler|Recorder") // bucket-size, min-refill and min-secs as configured
 }
 
 func relationOnCall(cl cmpLabel, operand string, outcome int8) string {
